@@ -229,7 +229,9 @@ impl SixelParser {
             if mask & (1 << i) != 0 {
                 let translated_line = y_pos + i;
                 if translated_line >= last_line {
-                    break;
+                    // like the declared width the declared height is only a minimum, pixels below it extend the picture
+                    last_line = translated_line + 1;
+                    self.picture_data.resize(last_line as usize, vec![0; (self.width() as usize) * 4]);
                 }
 
                 let cur_line = &mut self.picture_data[translated_line as usize];
